@@ -18,7 +18,7 @@ from sqlcase import RL, Lite, DISK_LAYOUTS, ms, ordered_equal
 TYPES = ("INT", "BIGINT", "BOOLEAN", "VARCHAR")
 # constructs on which both dialects define the same answer
 FEATURES = dict(full_join=True, not_in_sub=False, like=False, bool_col_cond=False, offset_no_limit=False, case_no_else=True,
-                corr_in_sub=False, null_lit=True, cross=True, derived_limit=True, cast=True, concat=True, scalar_sub=True,
+                corr_in_sub=False, null_lit=True, scalar_sub_where=False, cross=True, derived_limit=True, cast=True, concat=True, scalar_sub=True,
                 mixed_int=True, group_expr=False)
 
 
@@ -29,16 +29,34 @@ def compare(a, b, order):
 _ON = re.compile(r" ON (.*?)(?= (?:JOIN|LEFT JOIN|RIGHT JOIN|FULL JOIN|CROSS JOIN|WHERE|GROUP BY|ORDER BY|HAVING|LIMIT)\b|$)")
 
 
+def _groups(text):
+    """all balanced parenthesised groups of text (innermost included)"""
+    out, stack = [], []
+    for i, ch in enumerate(text):
+        if ch == "(":
+            stack.append(i)
+        elif ch == ")" and stack:
+            out.append(text[stack.pop():i + 1])
+    return out
+
+
 def sqlite_reference_unreliable(sql):
     """SQLite 3.40.1 (the reference in this sandbox) returns no rows for
-    `a JOIN b ON <constant false> RIGHT JOIN c ON ...` (checked by hand: with a non-constant false
-    condition it returns c's rows NULL-padded, as the standard and risinglight do). Queries with a
-    RIGHT/FULL JOIN and a join condition without any column reference are not judged."""
+    `a JOIN b ON <... constant-false term ...> RIGHT|FULL JOIN c ON ...` (checked by hand: with a
+    non-constant false condition it returns c's rows NULL-padded, as the standard and risinglight
+    do). Queries with a RIGHT/FULL JOIN and a join condition that contains a predicate without any
+    column reference are not judged."""
     if "RIGHT JOIN" not in sql and "FULL JOIN" not in sql:
         return False
+    col = re.compile(r"\b[a-z]\w*\.[a-z]\w*")
+    pred = re.compile(r"[=<>]| IS | IN | BETWEEN | LIKE ")
     for m in _ON.finditer(sql):
-        if not re.search(r"\b[a-z]\w*\.[a-z]\w*", m.group(1)):
+        on = m.group(1)
+        if not col.search(on):
             return True
+        for g in _groups(on):
+            if not col.search(g) and pred.search(g) and "SELECT" not in g:
+                return True
     return False
 
 
@@ -97,7 +115,9 @@ def run_case(args):
                     if x["ok"] and compare(x["rows"], ref["rows"], q.order):
                         culprits.append(name)
                 rl.cmd({"op": "deny_rules", "rules": []})
-                sig = "optimizer:" + ("+".join(culprits[:3]) if culprits else "unattributed")
+                # commutativity / associativity rules only expose the match of the real culprit
+                core = [c for c in culprits if not c.endswith(("-comm", "-assoc"))] or culprits
+                sig = "optimizer:" + ("+".join(core[:3]) if core else "unattributed")
             else:
                 feats = sorted(t for t in q.tags if t.startswith(("join:", "agg:", "sub:")) or t in ("distinct", "having", "case", "div", "between", "in_list", "concat", "cast", "limit", "offset", "derived_limit", "cte"))
                 sig = "semantics:" + ",".join(feats[:6])
